@@ -976,6 +976,8 @@ class Exec:
                 self.result_digest.update(sha(cr).encode())
                 if kd == 'geo':
                     self.check_parser(report)
+                elif kd == 'hip' and result is not None and isinstance(getattr(result, 'result', None), dict):
+                    self.check_hip_parser(report, result.result)
             elif parsed is not None:
                 self.result_digest.update(sha(parsed).encode())
             if served_from_cache:
@@ -988,6 +990,38 @@ class Exec:
         else:
             self.result_digest.update(f'{outcome}'.encode())
         # (reports stay where they were written: later operations run against a directory that already holds them)
+
+    def check_hip_parser(self, report, parsed):
+        """C10 for the HIP-RA-X client: every 'label: number [unit]' line of the report against the returned dict (independent
+        tokenisation: split at the first colon, then on white space)"""
+        lines = {}
+        for ln in report.split('\n'):
+            t = ln.strip()
+            if not t or t.startswith('*') or ':' not in t:
+                continue
+            label, rest = t.split(':', 1)
+            toks = rest.split()
+            if not toks:
+                continue
+            try:
+                v = float(toks[0])
+            except ValueError:
+                continue
+            lines.setdefault(label.strip(), []).append((v, toks[1] if len(toks) > 1 else None, toks[0]))
+        self.parse_stats['hip_fields'] = self.parse_stats.get('hip_fields', 0) + len(lines)
+        for label, cands in lines.items():
+            got = parsed.get(label)
+            if not isinstance(got, dict):
+                self.V('C10', 'parse_mismatch', 'hip_field_missing', f'HIP-RA-X report line {label!r} = {cands[0][2]} is not in the client result')
+                return
+            gv, gu = got.get('value'), got.get('unit')
+            if not any((gv == v or (gv != gv and v != v)) and (gu or None) == (u or None) for v, u, _ in cands):
+                self.V('C10', 'parse_mismatch', 'hip_field',
+                       f'HIP-RA-X field {label!r}: client has {gv!r} {gu!r}, the report prints {[(c[2], c[1]) for c in cands]}')
+                return
+        extra = [k_ for k_ in parsed if k_ not in lines]
+        if extra:
+            self.V('C10', 'parse_mismatch', 'hip_field_not_in_report', f'client result has fields no report line carries: {extra[:4]}')
 
     def check_parser(self, report):
         """C10: order-independence of the parser over every set.pop() order + independent tokenisation"""
